@@ -121,7 +121,7 @@ def nodeAddVstorage (e : Env) (s : State) (creator : Addr) (size : Nat) : TxM St
   let amount := addAmount size
   let sz := addSize amount
   if amount < 0 then throw "negative coin"
-  let s ← s.send creator e.modNode amount
+  let s ← s.sendLit creator e.modNode amount
   let pledge := match s.getPledge creator with
     | none => { creator := creator, totalStorage := 0, usedStorage := 0, totalStoragePledged := amount,
                 totalShardPledged := 0, reward := 0, rewardDebt := 0 }
@@ -141,22 +141,39 @@ def nodeAddVstorage (e : Env) (s : State) (creator : Addr) (size : Nat) : TxM St
   let s := s.setPledge pledge
   pure { s with pool := some pool }
 
+/-- the checks of RemoveVstorage: what is released (coins) and debited (bytes) -/
+structure RemvPlan where
+  pool : Pool
+  pledge : Pledge
+  amount : Int
+  sz : Int
+
+def remvPlan (s : State) (creator : Addr) (size : Nat) : TxM RemvPlan :=
+  if (s.getNode creator).isNone then throw "node not found" else
+  match s.pool, s.getPledge creator with
+  | none, _ => throw "pool not found"
+  | _, none => throw "not pledged"
+  | some pool, some pledge =>
+    let amount := remAmount size
+    if amount = 0 then throw "zero amount" else
+    let sz := remSize amount
+    if sz > pledge.totalStorage - pledge.usedStorage then throw "no enough available vstorage" else
+    if amount < 0 then throw "negative coin" else
+    if pledge.totalStoragePledged - amount < 0 then throw "negative coin amount" else
+    pure { pool := pool, pledge := pledge, amount := amount, sz := sz }
+
+/-- the pledge record after a removal: settle pending reward first, then change the capacity -/
+def remvPledge (pl : RemvPlan) : Pledge :=
+  let p := { pl.pledge with totalStoragePledged := pl.pledge.totalStoragePledged - pl.amount }
+  let p := settle pl.pool p
+  let p := { p with totalStorage := p.totalStorage - pl.sz }
+  { p with rewardDebt := Dec.mulInt pl.pool.accRewardPerByte p.totalStorage }
+
 def nodeRemoveVstorage (e : Env) (s : State) (creator : Addr) (size : Nat) : TxM State := do
-  if (s.getNode creator).isNone then throw "node not found"
-  let some pool := s.pool | throw "pool not found"
-  let some pledge := s.getPledge creator | throw "not pledged"
-  let amount := remAmount size
-  if amount = 0 then throw "zero amount"
-  let sz := remSize amount
-  if sz > pledge.totalStorage - pledge.usedStorage then throw "no enough available vstorage"
-  if amount < 0 then throw "negative coin"
-  if pledge.totalStoragePledged - amount < 0 then throw "negative coin amount"
-  let pledge := { pledge with totalStoragePledged := pledge.totalStoragePledged - amount }
-  let s ← s.send e.modNode creator amount
-  let pledge := settle pool pledge
-  let pledge := { pledge with totalStorage := pledge.totalStorage - sz }
-  let pledge := { pledge with rewardDebt := Dec.mulInt pool.accRewardPerByte pledge.totalStorage }
-  let pool := { pool with totalPledged := pool.totalPledged - amount, totalStorage := pool.totalStorage - sz }
+  let pl ← remvPlan s creator size
+  let s ← s.send e.modNode creator pl.amount
+  let pledge := remvPledge pl
+  let pool := { pl.pool with totalPledged := pl.pool.totalPledged - pl.amount, totalStorage := pl.pool.totalStorage - pl.sz }
   let s ← (if pledge.totalStorage < s.params.vstorageThreshold then do
       let some node := s.getNode creator | throw "node not found"
       if node.role = 1 then pure (s.setNode e { node with role := 0 }) else pure s
@@ -242,7 +259,7 @@ def shardPledge (e : Env) (s : State) (sh : Shard) (unitPrice : Dec) : TxM (Stat
       let balance := s.bal sh.sp
       if balance ≥ shardPl then s.send sh.sp e.modNode shardPl
       else do
-        let s1 ← s.send sh.sp e.modNode balance
+        let s1 ← s.sendLit sh.sp e.modNode balance
         let d := match s1.getDebt sh.sp with
           | some d => d + (shardPl - balance)
           | none => shardPl - balance
